@@ -96,15 +96,52 @@ func rulesC16(c *Ctx) {
 				c.Bad("R2", "submission in "+fname(g), ci.Pos(), "a submission is deferred or spawned")
 				continue
 			}
-			ld, ok := ci.Arg(0).(*ssa.UnOp)
-			if !ok {
+			var fields map[string]ssa.Value
+			switch x := ci.Arg(0).(type) {
+			case *ssa.UnOp:
+				if a, ok := x.X.(*ssa.Alloc); ok {
+					fields = literalStores(a)
+				}
+			case *ssa.Call:
+				// the Pip is built by a helper (function or function literal): take its literal and map
+				// the helper's parameters to the arguments of this call
+				var h *ssa.Function
+				if hf := x.Call.StaticCallee(); hf != nil {
+					h = hf
+				} else if u, isU := x.Call.Value.(*ssa.UnOp); isU {
+					// call through a local variable holding a function literal
+					al, isA := u.X.(*ssa.Alloc)
+					if fv, isFV := u.X.(*ssa.FreeVar); isFV {
+						al, isA = bindingOf(fv).(*ssa.Alloc)
+					}
+					if isA && al != nil {
+						if st := uniqueStore(al); st != nil {
+							if mc, isMC := st.Val.(*ssa.MakeClosure); isMC {
+								h, _ = mc.Fn.(*ssa.Function)
+							}
+						}
+					}
+				} else if mc, isMC := x.Call.Value.(*ssa.MakeClosure); isMC {
+					h, _ = mc.Fn.(*ssa.Function)
+				}
+				if h != nil && h.Blocks != nil {
+					for _, r := range returnsOf(h) {
+						if ld, isLd := r.Results[0].(*ssa.UnOp); isLd {
+							if a, isA := ld.X.(*ssa.Alloc); isA {
+								fields = literalStores(a)
+							}
+						}
+					}
+					args := x.Call.Args
+					for k, v := range fields {
+						fields[k] = substParams(v, h, args, 0)
+					}
+				}
+			}
+			if fields == nil {
 				continue
 			}
-			a, ok := ld.X.(*ssa.Alloc)
-			if !ok {
-				continue
-			}
-			s := &trySubmission{call: call, fn: g, fields: literalStores(a)}
+			s := &trySubmission{call: call, fn: g, fields: fields}
 			if in := s.fields["Context.In"]; in != nil {
 				for _, o := range Origins(in, FlowOpts{Transparent: func(ci *CallInfo) []ssa.Value {
 					if ci.Static != nil {
@@ -426,4 +463,46 @@ func sameScopeValue(recv ssa.Value, newCall *ssa.Call, g, top *ssa.Function) boo
 		}
 	}
 	return false
+}
+
+// substParams: if v is (a pure wrapper of) a parameter of h, return the
+// matching call argument; otherwise v.  Wrappers that take the parameter as
+// their only module-external input (strings.NewReader, gio.NewInput,
+// interface conversions) are kept: the caller inspects origins anyway.
+func substParams(v ssa.Value, h *ssa.Function, args []ssa.Value, depth int) ssa.Value {
+	for i, p := range h.Params {
+		if v == ssa.Value(p) && i < len(args) {
+			return args[i]
+		}
+	}
+	if depth > 6 {
+		return v
+	}
+	// look for a single parameter in the backward slice
+	var found ssa.Value
+	seen := map[ssa.Value]bool{}
+	var rec func(x ssa.Value, d int)
+	rec = func(x ssa.Value, d int) {
+		if x == nil || seen[x] || d > 8 {
+			return
+		}
+		seen[x] = true
+		for i, p := range h.Params {
+			if x == ssa.Value(p) && i < len(args) {
+				found = args[i]
+			}
+		}
+		if in, ok := x.(ssa.Instruction); ok {
+			for _, op := range in.Operands(nil) {
+				if op != nil && *op != nil {
+					rec(*op, d+1)
+				}
+			}
+		}
+	}
+	rec(v, 0)
+	if found != nil {
+		return found
+	}
+	return v
 }
